@@ -26,6 +26,7 @@ type Config struct {
 	CheckEvery int    `json:"check_every,omitempty"` // full-contents check every n ops (default 1)
 	Mirror    string  `json:"mirror,omitempty"` // "file": every completed Store is also written through the real file store to a scratch directory
 	Extra     string  `json:"extra,omitempty"` // generator note ("giant": one node of hundreds of entries)
+	CbFaults  bool    `json:"cbfaults,omitempty"` // Marshal/Unmarshal/KeyCompare are the counting wrappers; some inserts run with one Marshal call (outside any comparison) failing
 	CmpScale  int     `json:"cmpscale,omitempty"` // loader KeyCompare returns CmpScale * sign (a comparator need not return exactly -1/0/1)
 }
 
